@@ -335,7 +335,7 @@ theorem select_shape {e e' : Editor D L} {n : Nat} {m : Shared D L}
       refine Or.inl ⟨hdir, ?_, by rw [h2]⟩
       simp only [emitted, hs, h2, if_neg hap]
     -- the auto-commit runs only when the list has closed (`self.state.is_entering() &&`, C01's fix of `Editor::select`)
-    by_cases hl : (st == St.entering && m.last == KB.absorb) = true
+    by_cases hl : ((st == St.entering || st == St.enteringSyllable) && m.last == KB.absorb) = true
     · simp only [hl, if_true] at hp
       by_cases hlen : m.com.len ≤ m.options.autoCommitThreshold
       · rw [tryAutoCommit_noop env hlen] at hp
